@@ -314,6 +314,28 @@ def run(prog):
             for c, val, _, _ in te.facts_at(cs.bb):
                 sc = show(c)
                 c = strip(c)
+                if "next(" in sc and mir.is_call(c) and (c[1].local or getattr(c[1], "res_local", False)) and len(c[2]) == 2:
+                    # the comparison lives in a private predicate `better(ub, lb)`: evaluate its body at witness points.
+                    # A branch whose bound exceeds the incumbent by however little must be explored.
+                    a_ub = ["next(" in show(a) for a in c[2]]
+                    if a_ub[0] != a_ub[1]:
+                        gs = [g for g in prog.resolve(c[1]) if "{closure" not in g.npath]
+                        holds = val != "0"
+                        res = []
+                        if len(gs) == 1 and gs[0].terms.ret is not None:
+                            for ub_, lb_ in ((2e-30, 1e-30), (1.0 + 1e-9, 1.0), (3.0, 1.0), (1e-300, 0.0)):
+                                env = {1: ub_ if a_ub[0] else lb_, 2: lb_ if a_ub[0] else ub_}
+                                res.append((_num_eval(gs[0].terms.ret, env), ub_, lb_))
+                        if not res or any(r is None for r, _, _ in res):
+                            perrs.append("?the pruning test is `%s`, whose body is not evaluated here" % sc[:50])
+                        else:
+                            guards.append(sc[:60])
+                            bad = [(u, l) for r, u, l in res if bool(r) != holds]
+                            if bad:
+                                perrs.append("the branch is explored under `%s`, which is false for an upper bound of %g against a lower "
+                                             "bound of %g: a branch that can still improve the result is pruned (a fixed tolerance is "
+                                             "larger than any difference between small weighted counts)" % (sc[:50], bad[0][0], bad[0][1]))
+                    continue
                 if "next(" in sc and c[0] == "bin" and c[1] in ("Gt", "Ge", "Lt", "Le"):
                     left_ub = "next(" in show(c[2])
                     right_ub = "next(" in show(c[3])
@@ -510,3 +532,62 @@ def run(prog):
         out.append(inst("BB", "%s:BB7:driver" % dfn.npath, verdict_of(errs), dfn, None,
                         "; ".join(e.lstrip("?") for e in errs) if errs else "lower bound = value of the initial best assignment; search from the empty assignment over all query variables"))
     return out
+
+
+_FCONST = {"core::f64::<impl f64>::EPSILON": 2.220446049250313e-16, "core::f64::<impl f64>::MIN_POSITIVE": 2.2250738585072014e-308,
+           "core::f64::<impl f64>::MAX": 1.7976931348623157e308, "core::f64::<impl f64>::INFINITY": float("inf"),
+           "std::f64::EPSILON": 2.220446049250313e-16, "core::f64::EPSILON": 2.220446049250313e-16}
+
+
+def _num_eval(t, env):
+    """value of a small arithmetic / comparison term over f64 parameters, or None"""
+    t = strip(t)
+    if not isinstance(t, tuple) or not t:
+        return None
+    if t[0] == "param":
+        return env.get(t[1])
+    if t[0] == "constitem":
+        return _FCONST.get(t[1])
+    if t[0] == "const":
+        v = str(t[2])
+        for suf in ("f64", "f32", "_f64"):
+            if v.endswith(suf):
+                v = v[:-len(suf)]
+        try:
+            return float(v)
+        except ValueError:
+            return {"true": True, "false": False}.get(v)
+    if t[0] == "field" and t[2] == "0":
+        return _num_eval(t[1], env)          # RealSemiring(x).0 on a plain number
+    if t[0] == "bin":
+        a, b = _num_eval(t[2], env), _num_eval(t[3], env)
+        if a is None or b is None:
+            return None
+        try:
+            return {"Add": lambda: a + b, "Sub": lambda: a - b, "Mul": lambda: a * b, "Div": lambda: a / b,
+                    "Gt": lambda: a > b, "Ge": lambda: a >= b, "Lt": lambda: a < b, "Le": lambda: a <= b,
+                    "Eq": lambda: a == b, "Ne": lambda: a != b, "BitAnd": lambda: bool(a) and bool(b),
+                    "BitOr": lambda: bool(a) or bool(b)}[t[1]]()
+        except (KeyError, ZeroDivisionError):
+            return None
+    if t[0] == "un" and t[1] == "Not":
+        a = _num_eval(t[2], env)
+        return None if a is None else (not a)
+    if t[0] == "un" and t[1] == "Neg":
+        a = _num_eval(t[2], env)
+        return None if a is None else -a
+    if t[0] == "call" and t[1].name in ("abs", "max", "min") and not t[1].local:
+        vs = [_num_eval(a, env) for a in t[2]]
+        if any(v is None for v in vs):
+            return None
+        return abs(vs[0]) if t[1].name == "abs" else (max(vs) if t[1].name == "max" else min(vs))
+    if t[0] in ("gamma",):
+        c = _num_eval(t[1], env)
+        if c is None:
+            return None
+        for lab, v in t[2]:
+            truth = None if lab not in ("0", "1", ("not", ("0",)), ("not", ("1",))) else (lab in ("1", ("not", ("0",))))
+            if truth is not None and truth == bool(c):
+                return _num_eval(v, env)
+        return None
+    return None
